@@ -11,10 +11,110 @@ pub trait ParallelIterator: Sized + Send + Sync {
     /// source element type
     type Base: Send;
 
+    /// per-piece state (rayon: one per split): what `map_with` / `map_init` / `fold` carry from one
+    /// element of a piece to the next
+    type Ctx;
+
     #[doc(hidden)]
     fn take_bases(&mut self) -> Vec<Self::Base>;
     #[doc(hidden)]
-    fn eval(&self, b: Self::Base) -> Option<Self::Item>;
+    fn new_ctx(&self) -> Self::Ctx;
+    #[doc(hidden)]
+    fn eval(&self, ctx: &mut Self::Ctx, b: Self::Base) -> Option<Self::Item>;
+    /// called once when a piece is exhausted (`fold` emits its accumulator here)
+    #[doc(hidden)]
+    fn finish(&self, _ctx: Self::Ctx) -> Option<Self::Item> {
+        None
+    }
+
+    /// rayon's `map_with`: `init` is cloned once per piece and handed to every call of that piece
+    fn map_with<T, F, R>(self, init: T, f: F) -> MapWith<Self, T, F>
+    where
+        T: Send + Clone,
+        F: Fn(&mut T, Self::Item) -> R + Sync + Send,
+        R: Send,
+    {
+        MapWith { inner: self, init: std::sync::Mutex::new(init), f }
+    }
+
+    /// rayon's `map_init`: `init()` is called once per piece
+    fn map_init<INIT, T, F, R>(self, init: INIT, f: F) -> MapInit<Self, INIT, F>
+    where
+        INIT: Fn() -> T + Sync + Send,
+        F: Fn(&mut T, Self::Item) -> R + Sync + Send,
+        R: Send,
+    {
+        MapInit { inner: self, init, f }
+    }
+
+    /// rayon's `fold`: one accumulator per piece
+    fn fold<T, ID, F>(self, identity: ID, fold_op: F) -> Fold<Self, ID, F>
+    where
+        T: Send,
+        ID: Fn() -> T + Sync + Send,
+        F: Fn(T, Self::Item) -> T + Sync + Send,
+    {
+        Fold { inner: self, identity, fold_op }
+    }
+
+    fn inspect<OP>(self, op: OP) -> Map<Self, Box<dyn Fn(Self::Item) -> Self::Item + Sync + Send>>
+    where
+        OP: Fn(&Self::Item) + Sync + Send + 'static,
+        Self::Item: 'static,
+    {
+        Map {
+            inner: self,
+            f: Box::new(move |x| {
+                op(&x);
+                x
+            }),
+        }
+    }
+
+    fn for_each_with<T, OP>(self, init: T, op: OP)
+    where
+        T: Send + Clone,
+        OP: Fn(&mut T, Self::Item) + Sync + Send,
+    {
+        let _ = self.map_with(init, op).reduce_with(|_, _| ());
+    }
+
+    fn any<P>(self, p: P) -> bool
+    where
+        P: Fn(Self::Item) -> bool + Sync + Send,
+    {
+        self.map(p).reduce_with(|a, b| a || b).unwrap_or(false)
+    }
+
+    fn all<P>(self, p: P) -> bool
+    where
+        P: Fn(Self::Item) -> bool + Sync + Send,
+    {
+        self.map(p).reduce_with(|a, b| a && b).unwrap_or(true)
+    }
+
+    /// (sequential-order answer; rayon's find_any may return any match)
+    fn find_first<P>(self, p: P) -> Option<Self::Item>
+    where
+        P: Fn(&Self::Item) -> bool + Sync + Send,
+    {
+        self.filter(p).reduce_with(|a, _| a)
+    }
+
+    fn find_any<P>(self, p: P) -> Option<Self::Item>
+    where
+        P: Fn(&Self::Item) -> bool + Sync + Send,
+    {
+        self.filter(p).reduce_with(|a, _| a)
+    }
+
+    fn with_min_len(self, _min: usize) -> Self {
+        self
+    }
+
+    fn with_max_len(self, _max: usize) -> Self {
+        self
+    }
 
     fn map<F, R>(self, f: F) -> Map<Self, F>
     where
@@ -182,10 +282,12 @@ pub struct Source<T: Send> {
 impl<T: Send + Sync> ParallelIterator for Source<T> {
     type Item = T;
     type Base = T;
+    type Ctx = ();
     fn take_bases(&mut self) -> Vec<T> {
         std::mem::take(&mut self.items)
     }
-    fn eval(&self, b: T) -> Option<T> {
+    fn new_ctx(&self) {}
+    fn eval(&self, _ctx: &mut (), b: T) -> Option<T> {
         Some(b)
     }
 }
@@ -244,11 +346,18 @@ where
 {
     type Item = R;
     type Base = I::Base;
+    type Ctx = I::Ctx;
     fn take_bases(&mut self) -> Vec<I::Base> {
         self.inner.take_bases()
     }
-    fn eval(&self, b: I::Base) -> Option<R> {
-        self.inner.eval(b).map(|x| (self.f)(x))
+    fn new_ctx(&self) -> I::Ctx {
+        self.inner.new_ctx()
+    }
+    fn eval(&self, ctx: &mut I::Ctx, b: I::Base) -> Option<R> {
+        self.inner.eval(ctx, b).map(|x| (self.f)(x))
+    }
+    fn finish(&self, ctx: I::Ctx) -> Option<R> {
+        self.inner.finish(ctx).map(|x| (self.f)(x))
     }
 }
 
@@ -264,11 +373,18 @@ where
 {
     type Item = I::Item;
     type Base = I::Base;
+    type Ctx = I::Ctx;
     fn take_bases(&mut self) -> Vec<I::Base> {
         self.inner.take_bases()
     }
-    fn eval(&self, b: I::Base) -> Option<I::Item> {
-        self.inner.eval(b).filter(|x| (self.p)(x))
+    fn new_ctx(&self) -> I::Ctx {
+        self.inner.new_ctx()
+    }
+    fn eval(&self, ctx: &mut I::Ctx, b: I::Base) -> Option<I::Item> {
+        self.inner.eval(ctx, b).filter(|x| (self.p)(x))
+    }
+    fn finish(&self, ctx: I::Ctx) -> Option<I::Item> {
+        self.inner.finish(ctx).filter(|x| (self.p)(x))
     }
 }
 
@@ -285,11 +401,126 @@ where
 {
     type Item = R;
     type Base = I::Base;
+    type Ctx = I::Ctx;
     fn take_bases(&mut self) -> Vec<I::Base> {
         self.inner.take_bases()
     }
-    fn eval(&self, b: I::Base) -> Option<R> {
-        self.inner.eval(b).and_then(|x| (self.f)(x))
+    fn new_ctx(&self) -> I::Ctx {
+        self.inner.new_ctx()
+    }
+    fn eval(&self, ctx: &mut I::Ctx, b: I::Base) -> Option<R> {
+        self.inner.eval(ctx, b).and_then(|x| (self.f)(x))
+    }
+    fn finish(&self, ctx: I::Ctx) -> Option<R> {
+        self.inner.finish(ctx).and_then(|x| (self.f)(x))
+    }
+}
+
+pub struct MapWith<I, T, F> {
+    inner: I,
+    init: std::sync::Mutex<T>,
+    f: F,
+}
+
+impl<I, T, F, R> ParallelIterator for MapWith<I, T, F>
+where
+    I: ParallelIterator,
+    T: Send + Clone,
+    F: Fn(&mut T, I::Item) -> R + Sync + Send,
+    R: Send,
+{
+    type Item = R;
+    type Base = I::Base;
+    type Ctx = (I::Ctx, T);
+    fn take_bases(&mut self) -> Vec<I::Base> {
+        self.inner.take_bases()
+    }
+    fn new_ctx(&self) -> (I::Ctx, T) {
+        let t = match self.init.lock() {
+            Ok(g) => g.clone(),
+            Err(p) => p.into_inner().clone(),
+        };
+        (self.inner.new_ctx(), t)
+    }
+    fn eval(&self, ctx: &mut (I::Ctx, T), b: I::Base) -> Option<R> {
+        let (ic, t) = ctx;
+        self.inner.eval(ic, b).map(|x| (self.f)(t, x))
+    }
+    fn finish(&self, ctx: (I::Ctx, T)) -> Option<R> {
+        let (ic, mut t) = ctx;
+        self.inner.finish(ic).map(|x| (self.f)(&mut t, x))
+    }
+}
+
+pub struct MapInit<I, INIT, F> {
+    inner: I,
+    init: INIT,
+    f: F,
+}
+
+impl<I, INIT, T, F, R> ParallelIterator for MapInit<I, INIT, F>
+where
+    I: ParallelIterator,
+    INIT: Fn() -> T + Sync + Send,
+    F: Fn(&mut T, I::Item) -> R + Sync + Send,
+    R: Send,
+{
+    type Item = R;
+    type Base = I::Base;
+    type Ctx = (I::Ctx, T);
+    fn take_bases(&mut self) -> Vec<I::Base> {
+        self.inner.take_bases()
+    }
+    fn new_ctx(&self) -> (I::Ctx, T) {
+        (self.inner.new_ctx(), (self.init)())
+    }
+    fn eval(&self, ctx: &mut (I::Ctx, T), b: I::Base) -> Option<R> {
+        let (ic, t) = ctx;
+        self.inner.eval(ic, b).map(|x| (self.f)(t, x))
+    }
+    fn finish(&self, ctx: (I::Ctx, T)) -> Option<R> {
+        let (ic, mut t) = ctx;
+        self.inner.finish(ic).map(|x| (self.f)(&mut t, x))
+    }
+}
+
+pub struct Fold<I, ID, F> {
+    inner: I,
+    identity: ID,
+    fold_op: F,
+}
+
+impl<I, T, ID, F> ParallelIterator for Fold<I, ID, F>
+where
+    I: ParallelIterator,
+    T: Send,
+    ID: Fn() -> T + Sync + Send,
+    F: Fn(T, I::Item) -> T + Sync + Send,
+{
+    type Item = T;
+    type Base = I::Base;
+    type Ctx = (I::Ctx, Option<T>);
+    fn take_bases(&mut self) -> Vec<I::Base> {
+        self.inner.take_bases()
+    }
+    fn new_ctx(&self) -> (I::Ctx, Option<T>) {
+        (self.inner.new_ctx(), None)
+    }
+    fn eval(&self, ctx: &mut (I::Ctx, Option<T>), b: I::Base) -> Option<T> {
+        let (ic, acc) = ctx;
+        if let Some(x) = self.inner.eval(ic, b) {
+            let a = acc.take().unwrap_or_else(|| (self.identity)());
+            *acc = Some((self.fold_op)(a, x));
+        }
+        None
+    }
+    fn finish(&self, ctx: (I::Ctx, Option<T>)) -> Option<T> {
+        let (ic, mut acc) = ctx;
+        if let Some(x) = self.inner.finish(ic) {
+            let a = acc.take().unwrap_or_else(|| (self.identity)());
+            acc = Some((self.fold_op)(a, x));
+        }
+        Some(acc.unwrap_or_else(|| (self.identity)()))
     }
 }
 
@@ -340,15 +571,20 @@ where
     if !sim::in_simulation() {
         // plain sequential semantics, no simulator involved
         let mut acc: Option<PI::Item> = None;
+        let mut ctx = pi.new_ctx();
         for b in pi.take_bases() {
-            let v = pi.eval(b);
+            let v = pi.eval(&mut ctx, b);
             acc = match (acc, v) {
                 (Some(a), Some(v)) => Some(op(a, v)),
                 (None, v) => v,
                 (a, None) => a,
             };
         }
-        return acc;
+        return match (acc, pi.finish(ctx)) {
+            (Some(a), Some(v)) => Some(op(a, v)),
+            (None, v) => v,
+            (a, None) => a,
+        };
     }
     let mut cfg = sim::with(|s| s.cfg.clone());
     // a parallel iterator used *inside* a replica item (e.g. by the library's own code): its pieces
@@ -384,9 +620,10 @@ where
     if cfg.reference {
         // one worker, index order, single left fold, no pre-emption
         let mut acc: Option<PI::Item> = None;
+        let mut ctx = pi.new_ctx();
         for (pos, b) in bases {
             sim::set_current_item(if nested { parent_item } else { pos as i64 });
-            let v = pi.eval(b);
+            let v = pi.eval(&mut ctx, b);
             sim::set_current_item(if nested { parent_item } else { -1 });
             if !nested {
                 sim::with(|s| s.stats.tasks += 1);
@@ -402,7 +639,11 @@ where
                 s.stats.leaves += 1;
             });
         }
-        return acc;
+        return match (acc, pi.finish(ctx)) {
+            (Some(a), Some(v)) => Some(op(a, v)),
+            (None, v) => v,
+            (a, None) => a,
+        };
     }
 
     let mut leaves: Vec<(usize, usize)> = vec![];
@@ -450,9 +691,11 @@ where
                     };
                     did_any = true;
                     let mut acc: Option<PI::Item> = None;
+                    // one context per piece, as rayon clones map_with's value once per split
+                    let mut ctx = pi_ref.new_ctx();
                     for (pos, b) in items {
                         sim::set_current_item(if nested { parent_item } else { pos as i64 });
-                        let v = pi_ref.eval(b);
+                        let v = pi_ref.eval(&mut ctx, b);
                         sim::set_current_item(-1);
                         if !nested {
                             sim::with(|s| s.stats.tasks += 1);
@@ -467,6 +710,11 @@ where
                         // a worker may be pre-empted between items as well
                         shuttle::thread::sleep(std::time::Duration::from_millis(0));
                     }
+                    acc = match (acc, pi_ref.finish(ctx)) {
+                        (Some(a), Some(v)) => Some(op(a, v)),
+                        (None, v) => v,
+                        (a, None) => a,
+                    };
                     // result hand-off to the reducer
                     results_ref.lock().unwrap()[li] = Some(acc);
                     sim::with(|s| s.stats.handoffs += 1);
